@@ -274,6 +274,13 @@ class CallMixin:
     plain_kw = [k for k in e.keywords if k.arg is not None]
     if len(stars) != 1 or len(e.args) != 1 or len(dstars) > 1 or plain_kw:
       self.unsupp('call with *args/**kwargs outside the supported form', e)
+    if len(stars) == 1 and not dstars and isinstance(stars[0].value, ast.Call):
+      # f(*g(...)) where g returns an immediate tuple of known width: an ordinary call
+      def kt(st2, vals):
+        if not isinstance(vals[1], TupleImm):
+          self.unsupp('f(*call()) where the call does not return a tuple of known width', e)
+        return self.do_call(vals[0], list(vals[1].items), {}, st2, e)
+      return self.then(self.ev_list([e.func, stars[0].value], st), kt)
     cur = self.ctr_stack[-1]
     src = ast.unparse(e.func)
     if src not in cur.calls:
@@ -441,7 +448,10 @@ class CallMixin:
     if not z3.is_expr(body):
       self.unsupp('materialising a view of tuples', node)
     arr = fresh('view', ValArr)
-    return arr, SAFE_FORALL([i], arr[i] == body, patterns=[arr[i]])
+    pats = [arr[i]]
+    if getattr(view, 'is_keys', False):
+      pats.append(body)       # the enumeration term seq[i] also triggers the definition
+    return arr, SAFE_FORALL([i], arr[i] == body, patterns=pats)
 
   def bi_list(self, pos, kw, st, node, clsname='list'):
     if not pos:
@@ -470,7 +480,34 @@ class CallMixin:
       return [Res(st2, VRef(r))]
     if len(pos) == 1 and not kw and z3.is_expr(pos[0]):
       return self.dict_copy(pos[0], st, node)
+    if len(pos) == 1 and not kw and isinstance(pos[0], SeqView) and \
+        len(getattr(pos[0], 'zip_parts', None) or ()) == 2:
+      return self.dict_of_zip(pos[0], st, node)
     self.unsupp('dict(...) form', node)
+
+  def dict_of_zip(self, zv, st, node):
+    """dict(zip(K, V)): key k is present iff it occurs among the first n = min(len) keys; its
+    value is the one paired with its *last* occurrence (later pairs overwrite earlier ones)."""
+    from pyvc.expr import zip_axioms
+    trusted('dict(zip(K, V)): keys K[0..n), value of the last occurrence (n = shorter length)')
+    kview, vview = zv.zip_parts
+    facts = []
+    if getattr(kview, 'src_arrays', None) == ('llen', 'lelt') and kview.src is not None and \
+        getattr(kview, 'live', False):
+      K = st.heap.eltarr(kview.src)
+    else:
+      K, f = self.view_to_array(kview, node)
+      facts.append(f)
+    n = z3.simplify(zv.length)
+    k = z3.Const('dz_k', Val)
+    newhas = fresh('dz_has', HasArr)
+    newval = fresh('dz_val', ValMap)
+    w = zip_last(K, n, k)
+    facts += [zip_axioms(K, n),
+              SAFE_FORALL([k], newhas[k] == (w >= 0), patterns=[newhas[k]]),
+              SAFE_FORALL([k], z3.Implies(newhas[k], newval[k] == vview.elt(w)), patterns=[newval[k]])]
+    st2, d = self.new_dict(st.assume(*facts), 'dict', has=newhas, val=newval)
+    return [Res(st2, VRef(d))]
 
   def bi_collections_defaultdict(self, pos, kw, st, node):
     """collections.defaultdict(factory[, mapping]): new defaultdict with the mapping's items."""
@@ -557,6 +594,7 @@ class CallMixin:
       n = z3.If(v.length < n, v.length, n)
     out = SeqView(n, lambda i: TupleImm([v.elt(i) for v in views]))
     out.src_arrays = None
+    out.zip_parts = views
     return [Res(st, out)]
 
   def bi_reversed(self, pos, kw, st, node):
@@ -728,6 +766,25 @@ class CallMixin:
       for f in fields:
         st2 = self.raw_store_attr(VRef(r), f, vals[f], st2)
       return [Res(st2, VRef(r))]
+    if name in DATACLASSES_POST_INIT:
+      # @dataclass with __post_init__: allocate, set the declared fields (given or default),
+      # then run __post_init__ through its contract
+      fields, dflts, post = DATACLASSES_POST_INIT[name]
+      vals = dict(zip(fields, pos))
+      vals.update(kw)
+      for f in fields:
+        if f not in vals:
+          if f not in dflts:
+            self.unsupp(f'{name}(...) without field {f}', node)
+          vals[f] = dflts[f]
+      if set(vals) != set(fields):
+        self.unsupp(f'{name}(...) with fields {sorted(vals)}', node)
+      trusted(f'@dataclass {name}: __init__ stores the fields, then calls __post_init__')
+      st2, r = st.alloc(name)
+      for f in fields:
+        st2 = self.raw_store_attr(VRef(r), f, vals[f], st2)
+      return self.then(self.call_named_contract(post, [VRef(r)], {}, st2, node),
+                       lambda s3, _v: [Res(s3, VRef(r))])
     ctr = C.REGISTRY.get(f'new:{name}')
     if ctr is not None:
       return self.call_contract(ctr, pos, kw, st, node)
@@ -762,7 +819,22 @@ class CallMixin:
     if ctr is not None:
       if getattr(ctr, 'is_static', False):
         return self.call_contract(ctr, pos, kw, st, node)
+      if getattr(ctr, 'is_classmethod', False):
+        # obj.classmethod(...): cls is the class value of the receiver's class
+        c_ = st.heap.cls(ref(recv))
+        tv = typeval(c_)
+        return self.call_contract(ctr, [tv] + pos, kw,
+                                  st.assume(type_cid(tv) == c_, is_VRef(tv), is_type_obj(ref(tv))), node)
       return self.call_contract(ctr, [recv] + pos, kw, st, node)
+    if name == '__new__' and z3.is_expr(recv) and len(pos) == 1 and z3.is_expr(pos[0]) and not kw:
+      # cls.__new__(cls) for a class value: a fresh instance of that class, no field set
+      if self.feasible_full(st, recv != pos[0]):
+        self.unsupp('X.__new__(Y) with X possibly different from Y', node)
+      if self.feasible_full(st, z3.Not(z3.And(is_VRef(recv), is_type_obj(ref(recv))))):
+        self.unsupp('__new__ on a value that may not be a class', node)
+      trusted('cls.__new__(cls) / object.__new__(cls): allocates an instance of cls, no field set')
+      st2, r = st.alloc(type_cid(pos[0]))
+      return [Res(st2, VRef(r))]
     m = getattr(self, 'me_' + name, None)
     if m is None:
       self.unsupp(f'method .{name}()', node)
@@ -1112,9 +1184,16 @@ class CMValue(Abstract):
 
 # classes whose construction is "allocate and set these fields" (dataclasses / trivial __init__)
 DATACLASSES = {
+    'BuildableTraverserMetadata': ['fn_or_cls', 'argument_names', 'argument_tags', 'argument_history'],
     '_Placeholder': ['index'],
     'HistoryEntry': ['sequence_id', 'param_name', 'kind', 'new_value', 'location'],
     'Location': ['filename', 'line_number', 'function_name'],
+}
+
+
+DATACLASSES_POST_INIT = {
+    'SignatureInfo': (['signature', 'has_var_keyword'], {'has_var_keyword': VNone},
+                      'signatures.SignatureInfo.__post_init__'),
 }
 
 
